@@ -99,6 +99,20 @@ class DynamicSGEDecider(SynthesisDecider):
             )
 
 
+class DeciderSource(RandomSource):
+    """Random source for refinements during mapping: its draws are genes read through the decider."""
+
+    def __init__(self, decider: DynamicSGEDecider):
+        self.decider = decider
+
+    def randint(self, min: int, max: int) -> int:
+        return self.decider.random_int(min, max)
+
+    def random_float(self, min: float, max: float) -> float:
+        k = self.decider.random_int(1, MAX_GENE_VALUE)
+        return 1 * (max - min) / k + min
+
+
 class DynamicStructuredGrammaticalEvolutionRepresentation(
     Representation[Genotype, TreeNode],
     RepresentationWithMutation[Genotype],
@@ -126,7 +140,7 @@ class DynamicStructuredGrammaticalEvolutionRepresentation(
 
     def genotype_to_phenotype(self, genotype: Genotype) -> TreeNode:
         decider = DynamicSGEDecider(genotype, self.grammar, self.max_depth)
-        return random_tree(genotype.random, self.grammar, decider)
+        return random_tree(DeciderSource(decider), self.grammar, decider)
 
     def mutate(self, random: RandomSource, genotype: Genotype, **kwargs) -> Genotype:
         dna = deepcopy(genotype.dna)
